@@ -3,9 +3,12 @@ package ring
 import (
 	"context"
 	"fmt"
+	"sync"
 	"time"
 
 	"go.miragespace.co/specter/spec/chord"
+	"go.uber.org/zap"
+	"go.uber.org/zap/zapcore"
 	"verifharness/internal/ringsim"
 )
 
@@ -111,6 +114,107 @@ func opInFlightWhenLockTaken(kind string) (problem string) {
 	}
 	if opErr == nil && !applied {
 		return fmt.Sprintf("%s(%q) was acknowledged but has no effect (lock request result: %v)", kind, key, lockErr)
+	}
+	return ""
+}
+
+// parkCore is a zap core used as a schedule point INSIDE a function of the
+// code under test: the KV request path derives a per-request logger
+// (logger.With(key=...)) after the owner lookup and before it takes the node's
+// KV barrier; With() on this core parks the first request for the watched key.
+type parkCore struct {
+	key     string
+	once    *sync.Once
+	entered chan struct{}
+	release chan struct{}
+}
+
+func (c *parkCore) Enabled(zapcore.Level) bool { return false }
+func (c *parkCore) With(fields []zapcore.Field) zapcore.Core {
+	for _, f := range fields {
+		if f.Key == "key" && f.String == c.key {
+			hit := false
+			c.once.Do(func() { hit = true })
+			if hit {
+				close(c.entered)
+				<-c.release
+			}
+		}
+	}
+	return c
+}
+func (c *parkCore) Check(zapcore.Entry, *zapcore.CheckedEntry) *zapcore.CheckedEntry { return nil }
+func (c *parkCore) Write(zapcore.Entry, []zapcore.Field) error                       { return nil }
+func (c *parkCore) Sync() error                                                      { return nil }
+
+// opAcceptedJustBeforeOwnerLeaves: a Put has been routed to the key's owner S
+// and has passed the owner lookup, but has not yet entered S's KV barrier when
+// S leaves gracefully (hands all its keys to its successor) - the request is
+// parked at the per-request logger derivation. When it resumes, its result
+// must agree with its effect as seen through the remaining nodes.
+func opAcceptedJustBeforeOwnerLeaves() (problem string) {
+	const (
+		P = uint64(1) << 44
+		S = uint64(2) << 44 // owner, leaves
+		N = uint64(3) << 44 // its successor
+	)
+	var key []byte
+	for i := 0; i < 1<<16; i++ {
+		k := []byte(fmt.Sprintf("parked-%d", i))
+		if h := chord.Hash(k); chord.Between(P, h, S, true) {
+			key = k
+			break
+		}
+	}
+	if key == nil {
+		return "precondition: no key"
+	}
+	core := &parkCore{key: string(key), once: &sync.Once{}, entered: make(chan struct{}), release: make(chan struct{})}
+	r := newSimRing(ringsim.Config{Seed: 53, Logger: zap.New(core)})
+	defer r.net.Close()
+	if err := r.buildRing([]uint64{P, S, N}, func(i int) int { return 0 }); err != nil {
+		return "precondition: " + err.Error()
+	}
+	if _, c := r.settle(60, true, nil); c.Problem != "" {
+		return "precondition: " + c.Problem
+	}
+	r.fillLists(20)
+	ctx := context.Background()
+	sNode := r.members[S].Node
+	opDone := make(chan error, 1)
+	go func() { opDone <- sNode.Put(ctx, key, []byte("accepted")) }()
+	select {
+	case <-core.entered:
+	case err := <-opDone:
+		return fmt.Sprintf("precondition: request was not parked (returned %v)", err)
+	case <-time.After(10 * time.Second):
+		return "precondition: park point not reached"
+	}
+	sNode.Leave()
+	if sNode.VerifState() != chord.Left {
+		close(core.release)
+		<-opDone
+		return "precondition: owner did not leave"
+	}
+	close(core.release)
+	opErr := <-opDone
+	if opErr != nil && !chord.ErrorIsRetryable(opErr) {
+		return fmt.Sprintf("Put(%q) accepted just before its owner left failed non-retryably: %v", key, opErr)
+	}
+	if _, c := r.settle(60, false, nil, false); c.Problem != "" {
+		return "precondition: not converged after the leave: " + c.Problem
+	}
+	for _, m := range r.live() {
+		var got []byte
+		if err := retryKV(func() (e error) { got, e = m.Node.Get(ctx, key); return }); err != nil {
+			return "precondition: read back: " + err.Error()
+		}
+		if opErr == nil && string(got) != "accepted" {
+			return fmt.Sprintf("Put(%q) was acknowledged by its owner %d, which left right afterwards; Get via %d returns %q", key, S, m.ID, got)
+		}
+		if opErr != nil && string(got) == "accepted" {
+			return fmt.Sprintf("Put(%q) returned the retryable error %q although it took effect (Get via %d)", key, opErr, m.ID)
+		}
 	}
 	return ""
 }
